@@ -12,7 +12,7 @@ for d in sorted(glob.glob("/verif/seeded/*/")):
     except Exception:
         continue
     c = m.get("confirmed", {})
-    rows.append((sid, m.get("property", "?"), (m.get("summary", "") or "")[:160].replace("\n", " ").replace("|", "/"), (m.get("needs", "") or "")[:140].replace("\n", " ").replace("|", "/"), f"{c.get('demo_exit_clean')}/{c.get('demo_exit_mutated')}", (c.get("tests_with_mutation", "") or "").split(" in ")[0], ", ".join(m.get("checks", [])), m.get("history", "")))
+    rows.append((sid, m.get("property", "?"), (m.get("summary", "") or "")[:160].replace("\n", " ").replace("|", "/"), (m.get("needs", "") or m.get("needs_to_manifest", "") or "")[:140].replace("\n", " ").replace("|", "/"), f"{c.get('demo_exit_clean')}/{c.get('demo_exit_mutated')}", (c.get("tests_with_mutation", "") or "").split(" in ")[0], ", ".join(m.get("checks", [])), m.get("history", "")))
 with open("/verif/seeded/README.md", "w") as f:
     f.write("# Seeded changes\n\nProduced by sub-agents that saw only the property text; confirmed with `tools/confirm_mutation.sh`.\n`demo` = exit code of demo.py on the clean / mutated tree; `tests` = baseline suite with the mutation applied (baseline: 85-86 passed, 32 skipped, 5 collection errors; TestRunner::test_result, TestConfig::test_init, TestRunner::test_init are flaky).\n\n")
     f.write("| id | property | change | needs | demo | tests | checks (quick) | history |\n|---|---|---|---|---|---|---|---|\n")
